@@ -125,3 +125,38 @@ func ScriptEcho(dsID int) []byte {
 func addFile(home string, data []byte) {
 	filecacheNew(home + "/files").AddFile(data)
 }
+
+// ScriptProbe asks data source dsID once (external id 1) and, in execute, queries get_external_data_status(1, vid)
+// with vid = ask_count + delta (or the constant -1 when neg is set) before returning "test". An out-of-range validator
+// index must make the script fail (request resolves FAILURE), never disturb the node.
+func ScriptProbe(dsID int, delta int, neg bool) []byte {
+	vid := fmt.Sprintf("(i64.add (call $get_ask_count) (i64.const %d))", delta)
+	if neg {
+		vid = "(i64.const -1)"
+	}
+	return Wat(fmt.Sprintf(`(module
+ (type $v_i (func (result i64)))
+ (type $t0 (func))
+ (type $t1 (func (param i64 i64 i64 i64)))
+ (type $t2 (func (param i64 i64)))
+ (type $ii_i (func (param i64 i64) (result i64)))
+ (type $iii_i (func (param i64 i64 i64) (result i64)))
+ (import "env" "get_ask_count" (func $get_ask_count (type $v_i)))
+ (import "env" "ask_external_data" (func $ask (type $t1)))
+ (import "env" "set_return_data" (func $ret (type $t2)))
+ (import "env" "get_external_data_status" (func $status (type $ii_i)))
+ (import "env" "read_external_data" (func $read (type $iii_i)))
+ (func $prepare (export "prepare") (type $t0)
+   i64.const 1
+   i64.const %d
+   i64.const 1024
+   i64.const 4
+   call $ask)
+ (func $execute (export "execute") (type $t0)
+   (drop (call $status (i64.const 1) %s))
+   (drop (call $read (i64.const 1) %s (i64.const 4096)))
+   (call $ret (i64.const 1024) (i64.const 4)))
+ (memory (export "memory") 17)
+ (data (i32.const 1024) "test"))
+`, dsID, vid, vid))
+}
